@@ -55,6 +55,14 @@ impl<I: SelectSyscall> SelectSyscall for NioSelectSyscall<I> {
         errorfds: *mut fd_set,
         timeout: *mut timeval,
     ) -> c_int {
+        if !timeout.is_null() {
+            let tv = unsafe { *timeout };
+            if tv.tv_sec < 0 || tv.tv_usec < 0 {
+                // what the native call answers; converting such a value used to panic
+                crate::syscall::set_errno(libc::EINVAL);
+                return -1;
+            }
+        }
         let mut t = if timeout.is_null() {
             c_uint::MAX
         } else {
